@@ -320,6 +320,19 @@ def stepLine (st : DSt) (ws : List String) : DSt × List String :=
     match c.toNat? with
     | some ci => if st.ids.contains ci then doStep st (.resume ci) else (st, ["bad-op"])
     | none => (st, ["bad-op"])
+  | ["cto", c, sec] =>
+    -- per-connection inactivity timeout: nothing times out in the model (see Mhd.Model.SuspTimer for the timer)
+    match c.toNat?, sec.toNat? with
+    | some _, some _ => (st, ["ok"])
+    | _, _ => (st, ["bad-op"])
+  | ["tick-if-susp", c, ms] =>
+    -- the virtual clock advances only while the connection is suspended and nobody has resumed it yet
+    match c.toNat?, ms.toNat? with
+    | some ci, some m =>
+      if !st.started || st.thr then (st, ["bad-op"])
+      else if st.d.susp.contains ci && !(st.d.conn ci).resuming && (st.d.conn ci).timer.isNone then (st, [s!"ticked c={ci} ms={m}"])
+      else (st, [s!"not-ticked c={ci}"])
+    | _, _ => (st, ["bad-op"])
   | ["stop"] => (st, ["stopped"])
   | _ => (st, ["bad-op"])
 
